@@ -277,6 +277,7 @@ pub fn random_key(out: &mut Out, coll: &str, rng: &mut Rng, cfg: &RandCfg) {
         let tt = t + rng.range(0, 2);
         r.step(&Op::new("export", &[tt]), None);
     }
+    r.finish_key();
     r.end();
 }
 
